@@ -4,8 +4,11 @@ import (
 	"context"
 	"fmt"
 	"strings"
+	"sync"
 	"testing/synctest"
 	"time"
+
+	"github.com/evstack/ev-node/block"
 
 	"github.com/evstack/ev-node/types"
 )
@@ -45,7 +48,7 @@ func StartFullL2Sched(p Params, env *Env, image map[string][]byte, hs *P2PStore[
 	if err != nil {
 		return nil, err
 	}
-	n.M.VerifSetSendGate(func(ch string) { sched.Gate("send:" + ch) })
+	InstallDivert(sched, n, "sync")
 	f := &FullL2{N: n, Env: env, P: p, ErrCh: make(chan error, 16), HStore: hs, DStore: ds, Sched: sched}
 	var ctx context.Context
 	ctx, f.cancel = context.WithCancel(context.Background())
@@ -102,7 +105,7 @@ func (f *FullL2) Stop() {
 	f.N.Fate.Kill()
 	f.Sched.Off()
 	synctest.Wait()
-	f.N.M.VerifClearSendGate()
+	f.N.M.VerifClearDivert()
 }
 
 // Digest renders everything the C03 differential oracle compares.
@@ -131,4 +134,59 @@ func (f *FullL2) Digest(initial uint64) string {
 	}
 	fmt.Fprintf(&sb, "fatal=%d", len(f.Fatal))
 	return sb.String()
+}
+
+// EventQueues model the two buffered input channels of the sync loop on the harness side: producers' sends are
+// diverted into these FIFOs (so producers run ahead exactly as with a buffered channel) and two virtual scheduler
+// actions deliver the head of either queue into the real channel while the sync loop is idle — the explorer thereby
+// owns the choice Go's select would make at random when both channels hold events. A process stop drops the queues.
+type EventQueues struct {
+	mu       sync.Mutex
+	H        []block.NewHeaderEvent
+	D        []block.NewDataEvent
+	Diverted int
+}
+
+func InstallDivert(sched *Sched, n *Node, syncThread string) *EventQueues {
+	q := &EventQueues{}
+	m := n.M
+	m.VerifSetDivert(func(h *block.NewHeaderEvent, d *block.NewDataEvent) bool {
+		if n.Fate.Crashed() {
+			return true // the process is gone: the event is lost
+		}
+		q.mu.Lock()
+		defer q.mu.Unlock()
+		q.Diverted++
+		if h != nil {
+			q.H = append(q.H, *h)
+		} else {
+			q.D = append(q.D, *d)
+		}
+		return true
+	})
+	idle := func() bool { return !sched.IsParked(syncThread) && !n.Fate.Crashed() }
+	sched.Virtuals = append(sched.Virtuals,
+		&Virtual{Name: "deliver:header->" + syncThread, Enabled: func() bool {
+			q.mu.Lock()
+			defer q.mu.Unlock()
+			return len(q.H) > 0 && idle()
+		}, Run: func() {
+			q.mu.Lock()
+			ev := q.H[0]
+			q.H = q.H[1:]
+			q.mu.Unlock()
+			m.VerifHeaderInCh() <- ev
+		}},
+		&Virtual{Name: "deliver:data->" + syncThread, Enabled: func() bool {
+			q.mu.Lock()
+			defer q.mu.Unlock()
+			return len(q.D) > 0 && idle()
+		}, Run: func() {
+			q.mu.Lock()
+			ev := q.D[0]
+			q.D = q.D[1:]
+			q.mu.Unlock()
+			m.VerifDataInCh() <- ev
+		}})
+	return q
 }
